@@ -10,7 +10,7 @@ import itertools
 import z3
 
 from . import sym as S
-from .sym import SBool, SConst, SInt, SList, SVal, Sym, Unsupported, NativeOnSym, INTERN
+from .sym import SBool, SConst, SInt, SList, SVal, Sym, Unsupported, NativeOnSym, INTERN, OptField
 
 NOT_HANDLED = object()
 
@@ -32,6 +32,13 @@ def merge(eng, c, a, b):
         return b
     if a is b:
         return a
+    if isinstance(a, OptField) or isinstance(b, OptField):
+        pa = a.present if isinstance(a, OptField) else True
+        pb = b.present if isinstance(b, OptField) else True
+        va = a.value if isinstance(a, OptField) else a
+        vb = b.value if isinstance(b, OptField) else b
+        pz = lambda q: z3.BoolVal(q) if isinstance(q, bool) else q
+        return OptField(z3.simplify(z3.If(c, pz(pa), pz(pb))), merge(eng, c, va, vb))
     if isinstance(a, dict) and isinstance(b, dict) and set(a) == set(b):
         return {k: merge(eng, c, a[k], b[k]) for k in a}
     if isinstance(a, tuple) and isinstance(b, tuple) and len(a) == len(b):
@@ -114,6 +121,8 @@ JCANON = z3.Int("J!canon")
 
 def _flatten(v, path=()):
     """Scalar leaves of a value: list of (path, kind, z3expr, extra) or None if not nameable."""
+    if isinstance(v, OptField):
+        return None
     if isinstance(v, SConst):
         return [(path, "const", v.z, v.dom)]
     if isinstance(v, SInt):
@@ -433,7 +442,26 @@ def concrete_list_sym_store(eng, c, k, v):
 
 
 def symbolic_slice(eng, c, k):
-    return slist_subscript(eng, as_slist(eng, c), k)
+    """Slice of a *concrete* list with symbolic bounds: decide the effective bounds by forking."""
+    _, lo, hi, stp = k
+    if stp is not None:
+        raise Unsupported("slice step with symbolic bounds")
+    n = len(c)
+
+    def clamp(a):
+        if a is None:
+            return None
+        a = zidx(a)
+        return z3.If(a >= 0, z3.If(a < n, a, n), z3.If(n + a > 0, n + a, 0))
+
+    def decide(z, default):
+        if z is None:
+            return default
+        q = eng.choose(n + 1, lambda q: z == q)
+        return q
+    lo_c = decide(clamp(lo), 0)
+    hi_c = decide(clamp(hi), n)
+    return c[lo_c:hi_c]
 
 
 def replicate(eng, lst, n):
@@ -812,7 +840,16 @@ def m_sorted(eng, args, kwargs, anysym):
     else:
         keys = [eng.call(key, [x], {}) for x in items]
     if S.deep_has_sym(keys):
-        raise Unsupported("sorted() with symbolic keys (needs a contract)")
+        # ground list, symbolic keys: stable insertion sort deciding each comparison by forking
+        if kwargs.get("reverse"):
+            raise Unsupported("sorted(reverse=True) with symbolic keys")
+        order = []
+        for q in range(len(items)):
+            pos = len(order)
+            while pos > 0 and eng.truth(eng.wrap_bool(eng.zbool_of(eng.key_lt(keys[q], keys[order[pos - 1]])))):
+                pos -= 1
+            order.insert(pos, q)
+        return [items[q] for q in order]
     try:
         order = sorted(range(len(items)), key=lambda q: keys[q], reverse=kwargs.get("reverse", False))
     except TypeError as e:
@@ -881,15 +918,39 @@ def container_method(eng, owner, name, args, kwargs):
                 raise Unsupported("dict.%s with symbolic key %r" % (name, k))
         if name == "get":
             try:
-                return owner.get(*args)
+                val = owner.get(*args)
             except TypeError as e:
                 raise E.Raised(TypeError, e.args)
+            if isinstance(val, OptField) and args[0] in owner and owner[args[0]] is val:
+                default = args[1] if len(args) > 1 else None
+                pz = z3.BoolVal(val.present) if isinstance(val.present, bool) else val.present
+                try:
+                    return merge(eng, pz, val.value, default)
+                except Unsupported:
+                    if eng.branch(pz):
+                        owner[args[0]] = val.value
+                        return val.value
+                    del owner[args[0]]
+                    return default
+            return val
         if name == "pop":
             eng.path.trace.append(("dict_pop", id(owner), args[0]))
+            cur = owner.get(args[0], None) if not isinstance(args[0], Sym) else None
+            if isinstance(cur, OptField):
+                pz = z3.BoolVal(cur.present) if isinstance(cur.present, bool) else cur.present
+                present = eng.branch(pz)
+                del owner[args[0]]
+                if present:
+                    return cur.value
+                if len(args) > 1:
+                    return args[1]
+                raise E.Raised(KeyError, (args[0],))
             try:
                 return owner.pop(*args)
             except KeyError as e:
                 raise E.Raised(KeyError, e.args)
+        if name in ("items", "keys", "values", "copy") and any(isinstance(x, OptField) for x in owner.values()):
+            eng.resolve_opt(owner)
         if name in ("items", "keys", "values", "setdefault", "copy", "clear"):
             return getattr(owner, name)(*args)
         if name == "update":
